@@ -1,5 +1,6 @@
 import D2P.Props.C12Ranges
 import D2P.Proofs.Paragraph
+import D2P.Proofs.ElemsSimple
 /-!
 # C12 — across paragraphs: the offsets add up
 
@@ -47,7 +48,8 @@ theorem par_runs (cfg : PartCfg) (num : Dict Str (List NumAttr)) (c : Bool) (k :
     ∃ tag bb st, getBullet s.bullets x ((x.id?).getD 0) = .ok bb ∧
       parMachine cfg num c (k + tagOff tag) bb.2 x s.ranges = .ok st ∧
       Out s' (k + 2 * tagOff tag + st.r.count) ∧ s'.ranges = st.ranges ∧
-      ∃ p', leafParsL s'.root = leafParsL s.root ++ [p'] ∧ kept p'.runs = st.r.runs ∧ p'.htmlStyle.isEmpty = !tag := by
+      ∃ p', leafParsL s'.root = leafParsL s.root ++ [p'] ∧ kept p'.runs = st.r.runs ∧ p'.htmlStyle.isEmpty = !tag ∧
+        p'.elem = x.id? := by
   cases x with
   | comment _ _ =>
     simp only [isSimplePar, Bool.and_eq_true, beq_iff_eq] at hx
@@ -112,7 +114,20 @@ theorem par_runs (cfg : PartCfg) (num : Dict Str (List NumAttr)) (c : Bool) (k :
       show (⟨absP pb, sa.ranges⟩ : RS) = _
       rw [ab, habs0, a6, f1.ranges]
     rw [hstart] at o3
-    refine ⟨bb, absS s3 p3, ?_, by simpa [parMachine, Xml.kids] using o3, ?_, ?_, p3, ?_, ?_, i3.tagged⟩
+    -- the record's element: the open paragraphs' elements are [x.id?] from the moment the paragraph opens until it closes
+    have helem : p3.elem = (Xml.elem i pf t m a tx tl ks).id? := by
+      have e0 : elems sa = [(Xml.elem i pf t m a tx tl ks).id?] := by
+        have := commencePar_elems cfg.html s1 sa _ c ha
+        rw [this]; simp [elems, f1.openPars, ho.closed]
+      have eb : elems sb = elems sa :=
+        (insertNewRun_soft cfg.html _ sb bb.2 hb).same_of_ne (by show elems sa ≠ []; rw [e0]; simp)
+      have em : elems (sb.modTop fun p => { p with listPos := LP }) = elems sb := elems_modTop _ _ (fun _ => rfl)
+      have e3 : elems s3 = elems (sb.modTop fun p => { p with listPos := LP }) :=
+        (walkL_soft_simple cfg num ks hx.2 _ _ s3 h3).same_of_ne (by rw [em, eb, e0]; simp)
+      have : elems s3 = [p3.elem] := by simp [elems, i3.one]
+      rw [this, em, eb, e0] at e3
+      simpa using e3
+    refine ⟨bb, absS s3 p3, ?_, by simpa [parMachine, Xml.kids] using o3, ?_, ?_, p3, ?_, ?_, i3.tagged, helem⟩
     · have hbul : sa.bullets = s.bullets := a7.trans f1.bullets
       rw [← hbul]; exact hbb
     · refine ⟨by rw [f5.openPars, c2, i3.one]; rfl, by rw [f5.queued, c3]; exact i3.noq, ?_, sty_of_frame s4 s' f5 u4⟩
